@@ -199,6 +199,9 @@ pub enum Extra {
     /// Raise ctrl-c just before request `at` is issued (idle interrupt) or,
     /// with `during`, while it is in flight.
     CtrlC { at: usize, during: bool },
+    /// Every pipe transfer the child writes takes this long (a slow child):
+    /// a reply of several transfers may legitimately run into the time limit.
+    SlowPipe { cost_ns: u64 },
 }
 
 #[derive(Serialize, Deserialize, Clone, Debug, PartialEq)]
@@ -406,6 +409,15 @@ fn oracle(sc: &Scenario, recs: &[Record], raises: &[Vec<usize>], end: &RunEnd) -
                     });
                 }
             }
+            // Injected slow pipe: a request whose request or reply needs more than
+            // two transfers, or that computes for a while first, may legitimately
+            // run into the limit - it, and only it.
+            (Expect::Ok(_), Obs::Timeout(_))
+                if slow_pipe(sc) && !matches!(req.op, Op::Add(..)) =>
+            {
+                fault_before = true;
+                continue;
+            }
             (Expect::Ok(_), other) => {
                 return Some(Violation {
                     clause: if fault_before {
@@ -480,6 +492,13 @@ fn oracle(sc: &Scenario, recs: &[Record], raises: &[Vec<usize>], end: &RunEnd) -
             detail: "client did not finish within the step cap".into(),
         }),
     }
+}
+
+fn slow_pipe(sc: &Scenario) -> bool {
+    sc.knobs
+        .extra
+        .iter()
+        .any(|e| matches!(e, Extra::SlowPipe { .. }))
 }
 
 fn want_short(e: &Expect) -> String {
@@ -647,11 +666,17 @@ impl Harness for C18 {
         // The fault-injecting sub-batch (every fourth run) adds kinds outside
         // the property's request alphabet, each with its own narrow relaxation.
         if systematic.is_none() && rng.chance(1, 4) {
-            let at = rng.below(requests.len() as u64) as usize;
-            knobs.extra.push(Extra::CtrlC {
-                at,
-                during: rng.chance(1, 2),
-            });
+            if rng.chance(2, 3) {
+                let at = rng.below(requests.len() as u64) as usize;
+                knobs.extra.push(Extra::CtrlC {
+                    at,
+                    during: rng.chance(1, 2),
+                });
+            } else {
+                knobs.extra.push(Extra::SlowPipe {
+                    cost_ns: knobs.timeout_ns / 3,
+                });
+            }
         }
         let end = if rng.chance(1, 2) {
             End::Terminate
@@ -675,6 +700,15 @@ impl Harness for C18 {
             kill_dead_err: (sc.knobs.kill_dead_err_pct, 100),
             alloc_fail: (0, 1),
             atomics_yield: false,
+            child_io_cost_ns: sc
+                .knobs
+                .extra
+                .iter()
+                .find_map(|e| match e {
+                    Extra::SlowPipe { cost_ns } => Some(*cost_ns),
+                    _ => None,
+                })
+                .unwrap_or(0),
             step_cap: 400_000 + 40 * sc.requests.iter().map(|r| match r.op {
                 Op::Large(n, _) => n as u64,
                 _ => 0,
@@ -787,6 +821,12 @@ impl Harness for C18 {
                 if rec.procs_after > rec.procs_before {
                     bump("restart_during_request", 1);
                 }
+                if slow_pipe(sc)
+                    && matches!(req.op, Op::Large(..))
+                    && matches!(rec.obs, Some(Obs::Timeout(_)))
+                {
+                    bump("timeout_mid_frame_under_slow_pipe", 1);
+                }
                 if i > 0 && is_fault(&sc.requests[i - 1].op, &sc.knobs) && rec.obs.is_some() {
                     bump("request_after_fault_answered", 1);
                 }
@@ -848,6 +888,7 @@ impl Harness for C18 {
                 c.requests.remove(i);
                 c.knobs.extra.retain(|e| match e {
                     Extra::CtrlC { at, .. } => *at < c.requests.len(),
+                    _ => true,
                 });
                 out.push(c);
             }
@@ -944,7 +985,7 @@ impl Harness for C18 {
         if sc.knobs.extra.is_empty() {
             "alphabet-only (the first 9330 run indices enumerate all kind sequences of length 1..5)".into()
         } else {
-            "with-extra-faults(ctrl-c)".into()
+            "with-extra-faults(ctrl-c or slow pipe)".into()
         }
     }
 
@@ -998,6 +1039,8 @@ impl Harness for C18 {
             "request_after_fault_answered",
             "ctrlc_while_idle",
             "ctrlc_in_flight",
+            "slow_pipe_transfer",
+            "timeout_mid_frame_under_slow_pipe",
         ]
     }
 }
